@@ -190,8 +190,21 @@ def stepE2EGet (initS evS hex impl : String) : DrvOut :=
     else { model := curS, spec := if impl.startsWith "crash" || impl == "timeout" then "FAIL server process died or hung on GET /get: " ++ impl else "ok" }
   | _, _ => { model := "bad-op" }
 
+/-- multi-segment GET: no prediction, the property itself: data or an error, never a crash, no unbounded allocation -/
+def stepMget (hexes : List String) (impl : String) : DrvOut :=
+  let n := hexes.foldl (fun a h => a + (if h == "-" then 0 else h.length / 2)) 0
+  let (o, m?) := splitAlloc impl
+  if o.startsWith "panic" || o.startsWith "crash" || o == "timeout" then
+    { model := "-", spec := "FAIL GET /get over consecutive segments crashed: " ++ o }
+  else match m? with
+    | some m => if m > n + slack n then { model := "-", spec := s!"FAIL {m} bytes allocated for {n} bytes of segments" } else { model := "-" }
+    | none => { model := "-" }
+
 def step (u : Unit) (op impl : String) : Unit × DrvOut :=
   match words op with
+  | "mget" :: _ :: _ :: hexes => (u, stepMget hexes impl)
+  | "mgetx" :: _ :: _ :: hexes => (u, stepMget hexes impl)
+  | "e2e" :: "mget" :: _ :: hexes => (u, stepMget hexes impl)
   | ["parse", i, h] => (u, stepParse false i h impl)
   | ["dur", t, h] => (u, stepDur false t h impl)
   | ["mux", e, d, h] => (u, stepMux false e d h impl)
